@@ -19,7 +19,8 @@ From MV Require Import Dir.LinesProofs.
 Import ListNotations.
 
 (* Every construct - leaf, block quote, list item, plain div, backtick or colon directive with no / ':key:' / '---'
-   option block, with or without a blank line before the body and any number of blank lines after it - at ANY
+   option block, with any number of blank lines before the body (parse_directive_text strips one and adds 1 to the
+   offset, the others stay in the body) and any number after it - at ANY
    nesting depth gets exactly the 1-based line at which it starts in the printed source. *)
 Theorem C04_lines_nested :
   forall tokenize yaml_load sg first_line,
@@ -115,15 +116,15 @@ Theorem C04_first_line_body_refuted :
 Proof. exact first_line_body_refuted. Qed.
 Print Assumptions C04_first_line_body_refuted.
 
-(* ---- non-vacuity: a colon directive holding a colon directive (the prepended-line case) with a ':key:' block and a
-   trailing blank line, inside a quote inside a list item; the premises of C04_lines_nested hold for note_sig/stub_tok ---- *)
+(* ---- non-vacuity: a colon directive holding a colon directive (the prepended-line case) with a ':key:' block, three
+   blank lines before its body and a trailing blank line, inside a quote inside a list item; the premises of C04_lines_nested hold for note_sig/stub_tok ---- *)
 Definition ex_doc : list blk :=
-  [ListItem 1 [Quote 2 [Dir 3 ColonFence NoOpts 0 false 0
-                          [Dir 4 ColonFence ColonOpts 1 false 1 [Leaf 5 1; Leaf 6 0]]]];
+  [ListItem 1 [Quote 2 [Dir 3 ColonFence NoOpts 0 0 0
+                          [Dir 4 ColonFence ColonOpts 1 3 1 [Leaf 5 1; Leaf 6 0]]]];
    Leaf 7 0].
 
 Example C04_example :
   wf_seq ex_doc = true /\
   document_lines stub_tok (fun _ => Y_falsy) note_sig [] ex_doc =
-  Ok [(1%nat, 1%Z); (2%nat, 1%Z); (3%nat, 1%Z); (4%nat, 2%Z); (5%nat, 5%Z); (6%nat, 8%Z); (7%nat, 13%Z)].
+  Ok [(1%nat, 1%Z); (2%nat, 1%Z); (3%nat, 1%Z); (4%nat, 2%Z); (5%nat, 8%Z); (6%nat, 11%Z); (7%nat, 16%Z)].
 Proof. split; vm_compute; reflexivity. Qed.
